@@ -176,7 +176,7 @@ CHECKS['C08'] = dict(
          'the "exceptions" part of the statement is covered by running the C09 fault enumeration (ledger after every injected fault), the AnyData holder by the C17 driver; '
          'non-trivial/distinct as in C02/C05/C09/C17',
     jobs=JS('drv_cblist', 'asan', 'c08', 4000, 80000, M4, shards=4) + JS('drv_queue', 'asan', 'c08', 4200, 80000, MQ, seed_offset=2, shards=4)
-         + JS('drv_fault', 'asan17-fault', '', 480, 8000, [0x03, 0x0c, 0x30, 0xc0], seed_offset=3, shards=4, shards_thorough=8)
+         + JS('drv_fault', 'asan17-fault', '', 540, 9000, [0x03, 0x0c, 0x30, 0xc0, 0x100], seed_offset=3, shards=4, shards_thorough=8)
          + JS('drv_anydata', 'asan17', 'random', 9000, 300000, [1, 2, 4], macro='VF_CAP_MASK', seed_offset=4, shards=3, shards_thorough=5),
     assumptions=['a removed callback must be released by the next quiescent point (no invocation in progress)'],
     technique='instance ledger of counted callback/payload types checked at every quiescent point + ASan/LeakSanitizer, driven by the list and queue monitors in lifetime mode',
@@ -187,15 +187,15 @@ CHECKS['C08'] = dict(
 CHECKS['C09'] = dict(
     title='Exceptions propagate and leave every container consistent and leak-free',
     level='fault_enumeration',
-    rule='8 target families (CallbackList with std::function and custom callback; EventDispatcher over std::map with a throwing key comparison/copy and over unordered_map with throwing hash/==; '
+    rule='9 target families (AnyData arguments in an EventQueue, inline and heap held objects; CallbackList with std::function and custom callback; EventDispatcher over std::map with a throwing key comparison/copy and over unordered_map with throwing hash/==; '
          'EventQueue with std::list and OrderedQueueList; ScopedRemover/CounterRemover/ConditionalRemover on list and dispatcher; HeterCallbackList/HeterEventDispatcher/HeterEventQueue) x generated '
          'histories of 8-20 operations; pass 1 counts, per operation, the points where user code runs (callback copy/invoke/==, payload copy/move, key copy/compare/hash, predicate, condition) or memory '
          'is allocated (replaced global operator new); pass 2 replays the history once for EVERY operation i and EVERY point k (evenly sampled above 40 per operation), arms the k-th point of operation i, '
          'requires the exception to reach the caller unchanged (VFault / bad_alloc; a throw that dies in noexcept is caught by the terminate handler), compares the observable content with the pre-call '
          'model for the strong-guarantee operations, with the read-back-and-constrained model for the others, continues the rest of the history under the model and checks the ledger after destruction; '
          '1 in 5 runs arms a second fault later; evaluations = histories, non-trivial = history with >=20 fault points, distinct = history hash',
-    jobs=JS('drv_fault', 'asan17-fault', '', 1200, 24000, [0x03, 0x0c, 0x30, 0xc0], shards=4, shards_thorough=8)
-         + JS('drv_fault', 'clang-asan17-fault', '', 400, 6000, [0x0f, 0xf0], seed_offset=1, shards=8, shards_thorough=8),
+    jobs=JS('drv_fault', 'asan17-fault', '', 1350, 27000, [0x03, 0x0c, 0x30, 0xc0, 0x100], shards=4, shards_thorough=8)
+         + JS('drv_fault', 'clang-asan17-fault', '', 450, 6750, [0x0f, 0x1f0], seed_offset=1, shards=8, shards_thorough=8),
     assumptions=['takeEvent, ScopedRemover::reset and dispatcher copy-assignment are not in the statement\'s strong-guarantee list: after a fault their result is read back and only constrained',
                  'after an exception escaping a processing call any part of the batch may be gone, events enqueued meanwhile must all remain'],
     technique='fault enumeration: count-down throwing from every user-code point and every allocation of every operation of generated histories, differential model oracle, instance ledger, ASan+LeakSanitizer',
@@ -329,9 +329,11 @@ CHECKS['C17'] = dict(
          '(SSO and heap), unique_ptr, shared_ptr, move-only and shared boxes of size capacity and capacity+8; construction from lvalue/const lvalue/rvalue/const rvalue/temporary/held object (ledger must show '
          'copy vs move); reads through get, T&, T*, getAddress twice (value, stable address, alignment); isType for all 48-96 instantiated types; move chains 1-20 with holders destroyed in random order; '
          'round trips through EventQueue<int, void(const AnyData&)> (enqueue, dispatch, process*, clearEvents, destruction with events pending, re-entrant enqueue); random mode + exhaustive mode (every type x '
-         'every construction form); non-trivial = held >=1 inline and >=1 heap object and performed >=1 AnyData move; distinct = trace hash',
+         'every construction form); plus the AnyData family of the C09 fault enumeration (a held object whose copy/move throws, or an allocation failure, at every point of enqueue/process: every held '
+         'object still destroyed exactly once); non-trivial = held >=1 inline and >=1 heap object and performed >=1 AnyData move; distinct = trace hash',
     jobs=JS('drv_anydata', 'asan17', 'random', 30000, 1500000, [1, 2, 4], macro='VF_CAP_MASK', shards=3, shards_thorough=5)
-         + JS('drv_anydata', 'asan17', 'exhaustive', 240, 9000, [1, 2, 4], macro='VF_CAP_MASK', seed_offset=1, shards=3, shards_thorough=5),
+         + JS('drv_anydata', 'asan17', 'exhaustive', 240, 9000, [1, 2, 4], macro='VF_CAP_MASK', seed_offset=1, shards=3, shards_thorough=5)
+         + [J('drv_fault', 'asan17-fault', '', 720, 14400, defs=['-DVF_CFG_MASK=0x100'], opts={'kind': '8'}, seed_offset=2, shards=8, shards_thorough=16)],
     assumptions=['over-aligned types (alignment > 8) are not promised by the statement and not stored', 'takeEvent/peekEvent do not compile with an AnyData argument and are not used'],
     technique='differential runtime monitor with address-tracked payload ledger, exhaustive sweep over object sizes 1..capacity+24 and construction forms, ASan+UBSan',
     level_text='Exploration + exhaustive size sweep: every size around the inline/heap boundary is stored, moved, queued and destroyed under the ledger.',
@@ -341,7 +343,7 @@ CHECKS['C17'] = dict(
 CHECKS['C18'] = dict(
     title='AnyId keys are coherent: equality, ordering and hash agree',
     level='exploration',
-    rule='6 configurations: Digester {std::hash, SmallHash (signed, range 4, salted per type: collisions across and within types)} x Storage {VStore (type tag + text, == and <), EmptyAnyStorage, NStore '
+    rule='8 configurations: Digester {std::hash, SmallHash (signed, range 4, salted per type: collisions across and within types)} x Storage {VStore (type tag + text, == and <), TStore (normalising: text only, == and <), EmptyAnyStorage, NStore '
          '(stores the value, no operators)}; per case a pool of 36-44 ids from ints/longs/chars/strings with duplicates and cross-type equal numbers; ALL ordered pairs and ALL triples of the pool checked '
          'for: == equivalence, < strict weak order, incomparability classes == equality classes, equal ids hash equally (also on copies), ground truth (value equality for VStore, digest equality otherwise); '
          'routing through EventDispatcher with unordered_map (default) and std::map (policy): exactly the listeners registered under ground-truth-equal ids run; non-trivial = pool has >=1 colliding-digest '
